@@ -13,10 +13,10 @@ CONF = {
                 quick=dict(cfg="MCAttest_06", bits=[1024, 2048, 3072], nflip=40),
                 thorough=dict(cfg="MCAttest_06t", bits=[1024, 1536, 2048, 3072, 4096], nflip=400)),
     "C16": dict(test="TestVerifAttest16", fml="TC16", strict="Strict16",
-                quick=dict(cfg="MCAttest_16", mutperpos=2, truncstep=3, mintevery=7, nrandmh=3000, reps=1, alt=400),
-                thorough=dict(cfg="MCAttest_16", mutperpos=16, truncstep=1, mintevery=1, nrandmh=60000, reps=4, alt=6000)),
+                quick=dict(cfg="MCAttest_16", mutperpos=2, truncstep=3, mintevery=7, nrandmh=3000, reps=1, alt=400, bufreuse=300),
+                thorough=dict(cfg="MCAttest_16", mutperpos=16, truncstep=1, mintevery=1, nrandmh=60000, reps=4, alt=6000, bufreuse=4000)),
 }
-CHUNK = 80000
+CHUNK = 150000
 
 
 def build(prop):
@@ -104,7 +104,7 @@ def run(prop, tier):
     if prop == "C06":
         plan = {"c06": {"cases": cases, "bits": tc["bits"], "nflip": tc["nflip"], "workers": 4}}
     else:
-        plan = {"c16": {"cases": cases, "mutperpos": tc["mutperpos"], "truncstep": tc["truncstep"], "mintevery": tc["mintevery"], "nrandmh": tc["nrandmh"], "reps": tc["reps"], "alt": tc["alt"]}}
+        plan = {"c16": {"cases": cases, "mutperpos": tc["mutperpos"], "truncstep": tc["truncstep"], "mintevery": tc["mintevery"], "nrandmh": tc["nrandmh"], "reps": tc["reps"], "alt": tc["alt"], "bufreuse": tc["bufreuse"]}}
     meta = {"tier": tier, "seed": vlib.seed(), "plan": {k: v for k, v in list(plan.values())[0].items() if k != "cases"}}
     with open(planp, "w") as f:
         json.dump(plan, f)
@@ -120,6 +120,10 @@ def run(prop, tier):
         nrsa = sum(1 for x in cases if x["c"]["kt"] == "rsa" and x["c"]["em"]["lead"] != "FF" and x["c"].get("via") != "parsed")
         nff = sum(1 for x in cases if x["c"]["kt"] == "rsa" and x["c"]["em"]["lead"] == "FF")
         want = nrsa * len(tc["bits"]) + nff + (len(cases) - nrsa - nff - ncross) + ncross * sum(1 for b in tc["bits"] if 1536 <= b <= 3072)
+        if summ["predecessors"] == 0:
+            raise NoVerdict("vacuous run: no call was issued after an accepted attestation")
+        if summ["predecessors_accepted"] != summ["predecessors"] and not verdict.violations and not verdict.known:
+            raise NoVerdict("%d of %d accepting predecessors were not accepted, yet nothing was reported" % (summ["predecessors"] - summ["predecessors_accepted"], summ["predecessors"]))
         if ncross == 0 or summ["cross_accepted"] == 0:
             raise NoVerdict("vacuous run: no label x scheme case (%d) or none of them accepted" % ncross)
         if summ["a_cases"] + summ["unrealisable"] != want or summ["unrealisable"] > 0:
@@ -136,6 +140,8 @@ def run(prop, tier):
         if summ["parse"] != byop["parse"] * tc["reps"] or summ["pem"] < byop["pem"] or summ["modhex"] < byop["modhex"] or summ["mut"] == 0:
             raise NoVerdict("not every exported case was executed: %s vs %s" % (json.dumps(summ), dict(byop)))
         agree = sum(1 for x in steps if x["e"]["op"] == "parse" and x["e"]["res"]["yok"] and len(x["e"]["res"]["eq"]) == 11)
+        if summ["bufreuse"] < 4 * tc["bufreuse"]:
+            raise NoVerdict("vacuous run: the buffer-reuse histories did not run (%d)" % summ["bufreuse"])
         if agree == 0 or summ["alt"] < 2 * tc["alt"]:
             raise NoVerdict("vacuous run: no certificate was parsed in agreement, or the alternating sequence did not run (%d)" % summ["alt"])
     for d in drift[:20]:
@@ -204,7 +210,8 @@ def replay(prop, path):
             cs += [{"c": dict(blank, exts=["bc", "ku", "kid", "san", "eku", "pol", "vendor"])}, {"c": dict(blank, exts=[])},
                    {"c": dict(blank, kt="rsa", sa="sha256-rsa", exts=["vendor"])}, {"c": dict(blank, kt="rsa-nonull", sa="sha256-rsa", exts=[])}]
             alt = 25
-        plan = {"c16": {"cases": cs, "raw": raw, "mutperpos": 0, "truncstep": 1, "mintevery": 1, "nob": True, "alt": alt, "reps": 1}}
+        bufreuse = 20 if any(x["e"].get("hist") == "buffer_reused" for x in evs) else 0
+        plan = {"c16": {"cases": cs, "raw": raw, "mutperpos": 0, "truncstep": 1, "mintevery": 1, "nob": True, "alt": alt, "reps": 1, "bufreuse": bufreuse}}
         if not a and not raw:
             raise NoVerdict("the recorded call carries no input bytes and no model case; nothing to re-execute")
     with open(planp, "w") as f:
